@@ -33,3 +33,30 @@ Theorem c03_findings_of_the_table :
   ["C03-ttl-eviction-wallclock-default"; "C03-random-eviction-set-order"; "C03-dirty-key-set-order"; "C03-cms-builtin-hash"].
 Proof. vm_compute. reflexivity. Qed.
 Print Assumptions c03_findings_of_the_table.
+
+(** (4) Engine level, ALL scripts: the observable run does not depend on the
+    value of the process-global sort-index counter when the model is built,
+    i.e. on which simulations were built or run earlier in the interpreter.
+    Numbering the events from any [k] instead of 0 yields the same delivery
+    sequence (time, type, target, kind), the same entity-side log (clocks seen,
+    values received, hooks, finishes) and the same final clock and counters. *)
+From HS Require Import Base.Prelude Engine.Engine Engine.Script Engine.Shift Engine.ShiftRun.
+Local Open Scope Z_scope.
+
+Theorem c03_run_independent_of_counter_offset : forall k fuel start end_ns p pre,
+  let o0 := script_run fuel start end_ns p pre in
+  let ok := run invoke_script fuel end_ns (script_init_from k start p pre) in
+  deliveries_of (out_state ok) = deliveries_of (out_state o0) /\
+  ulog (user (out_state ok)) = ulog (user (out_state o0)) /\
+  clock (out_state ok) = clock (out_state o0) /\
+  processed (out_state ok) = processed (out_state o0) /\
+  ncancelled (out_state ok) = ncancelled (out_state o0) /\
+  length (heap (out_state ok)) = length (heap (out_state o0)).
+Proof. exact run_independent_of_counter_offset. Qed.
+Print Assumptions c03_run_independent_of_counter_offset.
+
+(** Non-vacuity: numbering from 1000 really produces different identities. *)
+Example c03_offset_example :
+  map (fun e => ev_sort e) (heap (script_init_from 1000 0 [[]] [mkPre 5 (mkEmit (mkEmit0 0 0 0 false) (-1) []) false]))
+  = [1000].
+Proof. reflexivity. Qed.
